@@ -1,7 +1,7 @@
 #!/bin/bash
 # suite.sh <worktree>: pinned suite (3015 stable tests) against a worktree, zzdemo excluded
-W=$1; cd $W && GOFLAGS=-mod=mod GOPROXY=off go test -json -vet=off -count=1 -timeout 25m ./... > /tmp/mut/suite-$(basename $W).json 2>/dev/null
-python3 - /tmp/mut/suite-$(basename $W).json <<'PY'
+W=$1; cd $W && GOFLAGS=-mod=mod GOPROXY=off go test -json -vet=off -count=1 -timeout 25m ./... > /tmp/suite-$(basename $W).json 2>/dev/null
+python3 - /tmp/suite-$(basename $W).json <<'PY'
 import json,sys
 want=set(json.load(open('/root/.vp/BASELINE.json'))['stable_pass'])
 got=set()
@@ -13,4 +13,4 @@ miss=sorted(want-got)
 print("suite: %d/%d stable tests pass"%(len(want&got),len(want)))
 for m in miss[:10]: print("  MISSING", m)
 PY
-rm -f /tmp/mut/suite-$(basename $W).json; git -C $W checkout go.sum 2>/dev/null
+rm -f /tmp/suite-$(basename $W).json; git -C $W checkout go.sum 2>/dev/null
